@@ -455,10 +455,17 @@ func (self *Analyzer) functionLiteral(node pAst.FunctionLiteralExpression) ast.A
 		node.Span(),
 		pAst.FN_MODIFIER_NONE,
 	)
+	// the literal is a function of its own: `return` refers to it and no loop of the enclosing function surrounds its body
+	prevFunction := self.currentModule.CurrentFunction
+	prevLoopDepth := self.currentModule.LoopDepth
 	self.currentModule.CurrentFunction = &moduleFn
+	self.currentModule.LoopDepth = 0
 
 	// analyze body
 	analyzedBlock := self.block(node.Body, false)
+
+	self.currentModule.CurrentFunction = prevFunction
+	self.currentModule.LoopDepth = prevLoopDepth
 
 	// analyze return type
 	if err := self.TypeCheck(analyzedBlock.Type(), fnReturntype, TypeCheckOptions{
